@@ -9,6 +9,9 @@ Three parts, each GEN -> RUN -> JUDGE (DESIGN.md section 6, C06):
  (b) framing  specs/balance/IndexFraming.tla     (index shapes x every truncation point)
               harness/C06_arvados, C06_keepclient, C06_keepstore   the three index readers/writer
               specs/balance/IndexFramingTrace.tla            (IndexFramingContract)
+ (d) compose  specs/balance/GCCompose.tla        (TLC only: keep-balance's trash decision composed with
+              keepstore's TrashItem / Trash re-checks and concurrent client writes; the assumption-dropping
+              configurations must each be refuted)
  (c) sweep    specs/balance/Sweep.tla            (phases of Balancer.Run x one failing request)
               harness/C06_keepbalance/sweep_driver_test.go  real Balancer.Run, fake API + keepstores
               specs/balance/SweepTrace.tla                   (SweepContract)
@@ -22,7 +25,7 @@ sys.path.insert(0, os.path.join(os.path.dirname(os.path.abspath(__file__)), ".."
 import vlib  # noqa
 
 SD = "specs/balance"
-PARTS = [p for p in os.environ.get("VERIF_C06_PARTS", "scan,framing,sweep").split(",") if p]
+PARTS = [p for p in os.environ.get("VERIF_C06_PARTS", "scan,framing,sweep,compose").split(",") if p]
 
 
 def judge_batched(ctx, module, cfg, events, by_id, batch=1000, max_rejects=5, timeout=1700):
@@ -261,6 +264,22 @@ def part_sweep(ctx, rnd):
     return nontrivial
 
 
+def part_compose(ctx):
+    """Design-level only (no binding): the two halves of garbage collection composed."""
+    ctx.tlc(SD, "GCCompose", "MC_GCCompose_big.cfg" if ctx.thorough else "MC_GCCompose.cfg", timeout=1200,
+            label="compose: a removed block is unreferenced with all signatures expired; a block touched after "
+                  "the index is not removed by that sweep's request")
+    if ctx.thorough:
+        notrefuted = []
+        for cfg in ("ttl", "skew", "scan", "noeq", "latency"):
+            r = ctx.tlc(SD, "GCCompose", "MC_GCCompose_%s.cfg" % cfg, timeout=1200, must_pass=False, count=False)
+            if not r.violated:
+                notrefuted.append(cfg)
+        ctx.extra["compose_assumptions_refuted_when_dropped"] = 5 - len(notrefuted)
+        if notrefuted:
+            raise vlib.InfraError("GCCompose: dropping assumption %s is no longer refuted" % notrefuted)
+
+
 def run(ctx):
     rnd = random.Random(ctx.seed)
     nontrivial = 0
@@ -270,6 +289,8 @@ def run(ctx):
         nontrivial += len(part_framing(ctx, rnd))
     if "sweep" in PARTS:
         nontrivial += len(part_sweep(ctx, rnd))
+    if "compose" in PARTS:
+        part_compose(ctx)
     ctx.extra["distinct_nontrivial"] = nontrivial
     ctx.rule = ("scan: all paths of CollectionScan.tla within the Gen bounds (initial table x page size x environment "
                 "actions at every page boundary) plus seeded random populations of 0-200 collections; non-trivial = at "
